@@ -45,6 +45,7 @@ CONSTANTS NI, NR, NC, NA,
                           \* (a cfg file cannot contain a negative number)
           MaxCol,         \* bound: collections
           MaxRec,         \* bound: synchronous gauge Record calls
+          MaxLen,         \* bound on Len(hist) for the all-behaviours BFS export (CONSTRAINT HistBound)
           Hist,           \* BOOLEAN: record the behaviour in `hist` (generation runs)
           Ties,           \* BOOLEAN: two samples may carry the same time (the assumption is Ties = FALSE)
           Dev             \* set of deviation names (ideal behaviour: {})
@@ -61,7 +62,7 @@ ValsFor(k, a) == IF a <= RichA THEN ValsOf(k) ELSE {1}
 VARIABLES kinds, temps, cbi,                              \* configuration (constant after Init)
           reg, alive, tot, given, fresh, cr, todo, repnow, \* P
           gsum,                                            \* P ghost: sum of the deltas given to r
-          lastr,                                           \* reader of the last finished collection (generation runs)
+          lastr, ltot,                                     \* reader of / totals at the last finished collection (generation runs only)
           cbs, mtodo, cum, dlt, unrep, lastrep, pushed, clock, \* M
           ncol, nrec,                                      \* bounds
           flags,                                           \* rare conditions seen (generation runs only)
@@ -74,7 +75,7 @@ Cbs     == DOMAIN cbi
 
 cvars == <<kinds, temps, cbi>>
 pvars == <<reg, alive, tot, given, fresh, cr, todo, repnow, gsum>>
-ovars == <<lastr>>
+ovars == <<lastr, ltot>>
 mvars == <<cbs, mtodo, cum, dlt, unrep, lastrep, pushed, clock>>
 bvars == <<cvars, pvars, ovars, mvars, ncol, nrec, flags>>
 vars  == <<bvars, curreps, hist>>
@@ -264,7 +265,7 @@ Init ==
   /\ gsum = [r \in Readers |-> [i \in Instrs |-> Empty]]
   /\ fresh = [r \in Readers |-> [i \in Instrs |-> {}]]
   /\ cr = 0 /\ todo = {} /\ repnow = [i \in Instrs |-> {}]
-  /\ lastr = 0
+  /\ lastr = 0 /\ ltot = <<>>
   /\ cbs = {} /\ mtodo = {}
   /\ cum = [i \in Instrs |-> Empty] /\ dlt = [i \in Instrs |-> Empty]
   /\ unrep = [i \in Instrs |-> [r \in Readers |-> <<>>]]
@@ -326,15 +327,18 @@ Invoke(rep) ==
 EndFlags(r, w, o) ==
   UNION {
     If(\E c \in Cbs : <<"rem", c>> \in flags /\ c \notin reg /\ \E c2 \in reg : cbi[c2] = cbi[c], "collect_after_rem"),
-    If(F("destroyed_with_cb") \in flags, "collect_after_destroy"),
-    If(\E i \in Instrs : DeltaSum(r, i) /\ \E a \in DOMAIN w[i] : w[i][a].v < 0, "neg_delta"),
-    If(\E i \in Instrs : DeltaSum(r, i) /\ \E a \in DOMAIN w[i] : w[i][a].v = 0 /\ w[i][a].must, "zero_delta"),
+    If(F("destroyed_with_cb") \in flags /\ reg # {}, "collect_after_destroy"),
+    If(\E i \in Instrs : DeltaSum(r, i) /\ \E a \in DOMAIN w[i] : w[i][a].v < 0 /\ a \in DOMAIN given[r][i], "neg_delta"),
+    If(\E i \in Instrs : DeltaSum(r, i) /\ \E a \in DOMAIN w[i] : w[i][a].v = 0 /\ w[i][a].must /\ a \in DOMAIN given[r][i], "zero_delta"),
     If(\E i \in Instrs : DeltaSum(r, i) /\ \E a \in DOMAIN w[i] : ~w[i][a].must /\ w[i][a].v # 0 /\ a \in DOMAIN o[i],
        "delta_flush_unreported"),
     {<<"gone", p[1], p[2]>> : p \in {q \in Instrs \X AS : IsObs(kinds[q[1]]) /\ q[2] \in DOMAIN tot[q[1]] /\ q[2] \notin repnow[q[1]]}},
-    If(lastr \notin {0, r} /\ <<"col", r>> \in flags /\ temps[r] = "d", "interleaved"),
-    If(lastr \notin {0, r} /\ <<"col", r>> \notin flags, "first_after_other"),
-    {<<"col", r>>},
+    \* own last total G, another reader was handed L # G in between, now T # L: the delta must be T - G
+    If(lastr \notin {0, r} /\ \E i \in Instrs : DeltaSum(r, i) /\ \E a \in repnow[i] :
+          a \in DOMAIN given[r][i] /\ a \in DOMAIN ltot[i] /\ ltot[i][a] # given[r][i][a] /\ ltot[i][a] # tot[i][a], "interleaved"),
+    \* r's first delivery after another reader was handed L # 0: it must be the whole total
+    If(lastr \notin {0, r} /\ \E i \in Instrs : DeltaSum(r, i) /\ \E a \in repnow[i] :
+          a \notin DOMAIN given[r][i] /\ a \in DOMAIN ltot[i] /\ ltot[i][a] # 0 /\ tot[i][a] # ltot[i][a], "first_after_other"),
     If(\E i \in Instrs : kinds[i] = "ogauge" /\ temps[r] = "c" /\ \E a \in DOMAIN o[i] : a \notin repnow[i], "gauge_stale_cum"),
     If(\E i \in Instrs : kinds[i] = "sgauge" /\ \E a \in DOMAIN o[i] : a \notin fresh[r][i], "sgauge_stale"),
     If(NR = 1 /\ temps[1] = "d" /\ \E i \in Instrs : DOMAIN o[i] # {}, "fastpath")
@@ -345,7 +349,7 @@ EndCollect(r) ==
       w == [i \in Instrs |-> Want(r, i)]
   IN /\ cr = r /\ mtodo = {}
      /\ P_End(r, o) /\ M_End(r)
-     /\ lastr' = IF Hist THEN r ELSE lastr
+     /\ lastr' = (IF Hist THEN r ELSE lastr) /\ ltot' = (IF Hist THEN tot ELSE ltot)
      /\ UNCHANGED <<cvars, ncol, nrec, curreps>>
      /\ Rec([op |-> "Collect", r |-> r,
              reps |-> [c \in Cbs |-> MapSeq(curreps[c])],
@@ -433,9 +437,14 @@ VacReport == PrintT(<<"VAC", ToJson([k \in 1..NVac |-> TLCGet(10 + k)])>>)
 
 (* ======================= behaviour export ======================= *)
 View == bvars
+\* all-behaviours export: the history is part of the state identity, bounded by HistBound
+ViewH == vars
+HistBound == Len(hist) < MaxLen \/ cr # 0
 JustEnded == cr = 0 /\ Len(hist) > 1 /\ hist[Len(hist)].op = "Collect"
 \* complete behaviours (the MaxCol-th collection has finished; nothing is enabled afterwards)
 EmitAll == (JustEnded /\ ncol = MaxCol) => PrintT(<<"BEH", ToJson(hist)>>)
+\* all-behaviours BFS: print the maximal ones (the bound is reached right after a collection)
+EmitLast == (JustEnded /\ Len(hist) >= MaxLen) => PrintT(<<"BEH", ToJson(hist)>>)
 \* shaping of RANDOM WALKS only (ACTION_CONSTRAINT of the simulate cfg; never used when model checking):
 \* uniform choice among successors would destroy every instrument within a few steps
 GenShape ==
